@@ -314,7 +314,8 @@ func catalogue() []catProgram {
 		{name: "samepkg", prog: catalogueSamePkg()},
 		{name: "clash", prog: catalogueClash(false), vtic: true},
 		{name: "clash_all", prog: catalogueClash(true)},
-		{name: "shadow", prog: catalogueShadow(), vtic: true},
+		{name: "shadow", prog: catalogueShadow(false), vtic: true},
+		{name: "shadow_only", prog: catalogueShadow(true)},
 		{name: "elems", prog: catalogueElems(), vtic: true},
 		{name: "noalias_enum", prog: catalogueNoAliasEnum(), opts: [][]string{{"use_type_alias=false"}}},
 		{name: "comments", prog: catalogueComments()},
